@@ -349,6 +349,35 @@ def dict_cases(rng):
     yield 'dict.mergeWith', '$d.mergeWith($e)', v, lambda: ml.m_merge_with(d, e), False
     yield 'dict.mergeWith-list', '$d.mergeWith($e, $1 + $2)', v, lambda: ml.m_merge_with(d, e, lambda a, b: a + b), False
     yield 'dict.mergeWith-item', '$d.mergeWith($e, itemMerger => $1)', v, lambda: ml.m_merge_with(d, e, None, lambda a, b: a), False
+    kindm = rng.choice(('key', 'index', 'value', 'stop'))
+
+    def merged_or_fail(has_common_lists, has_common_items):
+        def model():
+            common = [key for key in d if key in e]
+            for key in common:
+                a, b = d[key], e[key]
+                if isinstance(a, dict) and isinstance(b, dict):
+                    continue
+                if isinstance(a, list) and isinstance(b, list):
+                    if has_common_lists:
+                        raise ml.ModelError('the list merger failed')
+                elif has_common_items:
+                    raise ml.ModelError('the item merger failed')
+            if has_common_lists and has_common_items:
+                return None
+            return ml.m_merge_with(d, e) if has_common_lists else ml.m_merge_with(d, e)
+        return model
+    flat = all(not isinstance(x, dict) for x in list(d.values()) + list(e.values()))
+    if flat:
+        yield 'dict.mergeWith-failing-list-merger', '$d.mergeWith($e, stopAt(1, 1, %s))' % kindm, v, merged_or_fail(True, False), False
+        yield 'dict.mergeWith-failing-item-merger', '$d.mergeWith($e, itemMerger => stopAt(1, 1, %s))' % kindm, v, merged_or_fail(False, True), False
+    dd = {'a': [rng.choice([1, 2]) for _ in range(rng.randrange(0, 4))], 'b': 1}
+    ee = {'a': [rng.choice([2, 3]) for _ in range(rng.randrange(0, 4))], 'c': 2}
+    yield 'dict.mergeWith-duplicates-in-lists', '$dd.mergeWith($ee)', {'dd': dd, 'ee': ee}, lambda: ml.m_merge_with(dd, ee), False
+    yield 'dict.list-values', "{a => 'x y'.split(' '), b => $dd.a.toList().insert(0, 9), c => [1, 2].splitAt(1)}.len()", {'dd': dd}, lambda: 3, False
+    yield 'dict.list-values-set', "$dd.set(k, 'x y'.split(' ')).k", {'dd': dd}, lambda: ['x', 'y'], False
+    yield 'dict.list-values-ctor', "dict(a => 'x y'.split(' ')).a.len() + dict([[k, [1].insert(0, 2)]]).k.len()", {'dd': dd}, lambda: 4, False
+    yield 'dict.list-values-plus', "({a => 'x y'.split(' ')} + {b => [1].insert(0, 2)}).keys().len()", {'dd': dd}, lambda: 2, False
     yield 'dict.mergeWith-levels', '$d.mergeWith($e, maxLevels => 1)', v, lambda: ml.m_merge_with(d, e, max_levels=1), False
     yield 'dict.ctor', 'dict(%s => 1, b => $d)' % k, v, lambda: {k: 1, 'b': d} if k != 'b' else {'b': d}, False
     yield 'dict.ctor-items', 'dict(%s)' % seq(rng, '$d.items()'), v, lambda: dict(d), False
@@ -396,6 +425,17 @@ def misc_cases(rng):
                 out.append(x)
             return f(out)
         return model
+    kind = rng.choice(('key', 'index', 'value', 'type', 'attr'))
+    yield 'fail-in-select', "$c.select(stopAt($, %d, %s)).toList()" % (k, kind), v, stopper(lambda o: o), False
+    yield 'fail-in-where', "$c.where(stopAt($, %d, %s) > -100).len()" % (k, kind), v, stopper(lambda o: len(o)), False
+    yield 'fail-in-groupBy-key', "$c.groupBy(stopAt($, %d, %s)).len()" % (k, kind), v, stopper(lambda o: len(set(o))), False
+    yield 'fail-in-groupBy-aggregator', "$c.groupBy($ mod 2, $, stopAt($.len(), %d, %s)).toList().len()" % (99, kind), v, (
+        lambda: len({x % 2 for x in lst})), False
+    yield 'fail-in-accumulate', "$c.accumulate(stopAt($2, %d, %s), 0).toList()" % (k, kind), v, stopper(lambda o: [0] + o), False
+    yield 'fail-in-selectMany', "$c.selectMany([stopAt($, %d, %s)]).toList()" % (k, kind), v, stopper(lambda o: o), False
+    yield 'fail-in-distinct', "$c.distinct(stopAt($, %d, %s)).len()" % (k, kind), v, stopper(lambda o: len(set(o))), False
+    yield 'fail-in-indexWhere', "$c.indexWhere(stopAt($, %d, %s) > 100)" % (k, kind), v, stopper(lambda o: -1), False
+    yield 'fail-in-all', "$c.all(stopAt($, %d, %s) > -100)" % (k, kind), v, stopper(lambda o: True), False
     yield 'stop-in-select', '$c.select(stopAt($, %d)).toList()' % k, v, stopper(lambda o: o), False
     yield 'stop-in-where', '$c.where(stopAt($, %d) > -100).toList()' % k, v, stopper(lambda o: o), False
     yield 'stop-in-takeWhile', '$c.takeWhile(stopAt($, %d) > -100).toList()' % k, v, stopper(lambda o: o), False
@@ -404,6 +444,15 @@ def misc_cases(rng):
     yield 'stop-in-any', '$c.any(stopAt($, %d) > 100)' % k, v, stopper(lambda o: False), False
     yield 'stop-in-toDict', '$c.toDict(stopAt($, %d)).len()' % k, v, stopper(lambda o: len(set(o))), False
     yield 'stop-in-sum', '$c.select(stopAt($, %d)).sum(0)' % k, v, stopper(lambda o: sum(o)), False
+    # a memorized sequence read by two passes at once: each pass sees the whole sequence
+    m = rng.randrange(0, 6)
+    yield 'memorize-nested-passes', 'let(m => range(%d).memorize()) -> $m.select([$, $m.len()])' % m, v, (
+        lambda: [[i, m] for i in range(m)]), False
+    yield 'memorize-zip-skip', 'let(m => range(%d).select($ * 2).memorize()) -> $m.zip($m.skip(1))' % m, v, (
+        lambda: [[2 * i, 2 * i + 2] for i in range(max(m - 1, 0))]), False
+    yield 'memorize-self-join', 'let(m => range(%d).memorize()) -> $m.join($m, true, [$1, $2]).len()' % m, v, (lambda: m * m), False
+    yield 'memorize-twice', 'let(m => $c.select($).memorize()) -> [$m.toList(), $m.reverse(), $m.len()]', v, (
+        lambda: [list(lst), list(reversed(lst)), len(lst)]), False
     # list() / set() splice lazily produced arguments, at every depth of laziness; real lists stay elements
     nn = [[rng.choice(ELEMS_INT) for _ in range(rng.randrange(0, 3))] for _ in range(rng.randrange(0, 4))]
     vn = {'nn': tuple(tuple(x) for x in nn)}
@@ -486,9 +535,10 @@ class Mon:
         self.ctx = yaql.create_context()
         # a host function whose failure is a StopIteration (a bare next() on an exhausted iterator): a failure of the
         # element function, never the end of the collection
-        def stop_at(x, k):
+        def stop_at(x, k, kind='stop'):
             if x == k:
-                raise StopIteration()
+                raise {'stop': StopIteration, 'key': KeyError, 'index': IndexError, 'value': ValueError, 'type': TypeError,
+                       'attr': AttributeError}[kind]('element function failed')
             return x
         self.ctx = self.ctx.create_child_context()
         self.ctx.register_function(stop_at, name='stopAt')
